@@ -13,9 +13,20 @@
 (*   pause_controller.go  Pause, setState, Wait                            *)
 (*   health_check.go  run / check                                          *)
 (*                                                                         *)
+(* Commands: deploy, rdeploy (rollout deploy), rset / rstop (rollout split *)
+(* set / stopped), pause, stop, resume, remove - issued one after the      *)
+(* other (racing commands are the business of Own.tla and Snap.tla).       *)
+(*                                                                         *)
 (* Identities: command k (1..NCmds) that is a deploy creates load balancer *)
-(* k, service version k and the targets Group[k].  Version 0 / load        *)
-(* balancer 0 = none.                                                      *)
+(* k, service version k and the targets Group[k]; a rollout deploy creates *)
+(* load balancer k and puts it into the rollout slot of the installed      *)
+(* version.  Version 0 / load balancer 0 = none.  remove ends an           *)
+(* incarnation of the service: a later deploy starts a new one with a      *)
+(* pause controller of its own.                                            *)
+(*                                                                         *)
+(* Bound to the code in both directions: TLC behaviours of this module are *)
+(* replayed into the proxy as schedules (tools/schedules.py), and the hook *)
+(* events of real runs are accepted as behaviours of it (ProxyTrace.tla).  *)
 (*                                                                         *)
 (* This is the untimed reading: every timer (deploy timeout, drain         *)
 (* deadline, max-pause, probe tick) may fire at any moment after it was    *)
@@ -24,7 +35,7 @@
 EXTENDS Integers, Sequences, FiniteSets, TLC
 
 CONSTANTS
-  Cmds,        \* sequence of command kinds: "deploy" | "pause" | "stop" | "resume"
+  Cmds,        \* sequence of command kinds: "deploy" | "rdeploy" | "rset" | "rstop" | "pause" | "stop" | "resume" | "remove"
   Group,       \* Group[k] = set of targets introduced by command k ({} if not a deploy)
   Reqs,        \* client requests
   Kinds,       \* request kinds that clients may choose: subset of {"plain","slow","forever","upgrade","slowupgrade"}
